@@ -258,7 +258,7 @@ CONFIG = {
         "C16_valid_credentials_succeed states 'valid credentials' on the outcome trace (no refused token request, no failed send, no 401 on a fresh send, no missing credential): it is the completeness of the outcome classification of C16_budget, not a statement about a server model",
     ],
     "level_text": "Coq theorems: CleanScopes is sorted, duplicate-free, idempotent, depends only on the set of its input (order/duplication/map-iteration-order insensitive) and '*' absorbs, for all byte strings; over every history of Client.Do calls with any cache flavour, credential table and server behaviour every send goes to the request's host or to a realm that host advertised and carries only that host's secrets, a Basic header reaches a host only after its Basic challenge, the cache stays host-tainted; <= 3 registry sends and <= 1 token fetch per call with a complete classification of non-success outcomes (valid credentials => the registry's non-401 answer); cache-key laws for the shared and the single-context cache; syncutil.Once as an LTS: one published result shared by all receivers, one fetch in flight, hand-over on cancellation",
-    "level_note": "every harness case runs under a watchdog (3 s, re-confirmed or proven from the slot state; a stream with two wedges is abandoned), a wedge is an ORACLE FAIL (once-wedged / once-slot-lost / set-wedged / do-wedged / no-progress); clause 'cached token only for the same scope set': shared cache + key-safe scopes only (single-context cache ignores scopes by design; hints with spaces alias, refuted witness); concurrent Client.Do: no-cross-host proved for every interleaving of cache reads/completions (atomic cache operations assumed), each call of a mix replayed on the oracle-read model; valid => non-401 oracle-only under concurrency; redirects: two known findings of net/http's policy below the auth client; five defects fixed (two in CleanScopes, two in the single-context cache's Set) (duplicates of unparsable scopes; single-scope fast path disagreeing with the general path); concurrent Set executions are accepted by the CacheSet transition system (hidden map operations placed by the harness); the Go runtime is exercised, not proved; strconv.Unquote escapes are outside the challenge model",
+    "level_note": "every harness case runs under a watchdog (3 s, re-confirmed or proven from the slot state; a stream with two wedges is abandoned), a wedge is an ORACLE FAIL (once-wedged / once-slot-lost / set-wedged / do-wedged / no-progress); clause 'cached token only for the same scope set': shared cache + key-safe scopes only (single-context cache ignores scopes by design; hints with spaces alias, refuted witness); concurrent Client.Do: no-cross-host proved for every interleaving of cache reads/completions (atomic cache operations assumed), each call of a mix replayed on the oracle-read model; budget and valid => non-401 proved per call for arbitrary cache answers; redirects: two known findings of net/http's policy below the auth client; five defects fixed (two in CleanScopes, two in the single-context cache's Set) (duplicates of unparsable scopes; single-scope fast path disagreeing with the general path); concurrent Set executions are accepted by the CacheSet transition system (hidden map operations placed by the harness); the Go runtime is exercised, not proved; strconv.Unquote escapes are outside the challenge model",
     "technique": "machine-checked proof in Coq (invariants over histories, trace-acceptor LTS for Once, canonical-form algebra for scope sets) + translator-regenerated anchors/constants + model/implementation correspondence + independent oracle",
     "explanation": "theorems about executable models of scope.go, challenge.go, client.go, cache.go and syncutil/once.go; the extracted models are run against the real code on generated scope lists, challenge headers, request histories over 2-4 in-process registries/token servers with marker secrets, and Once traces; an independent oracle scans every outgoing request for foreign secrets and checks budget, validity, algebraic laws of CleanScopes and result sharing",
 }
